@@ -1370,6 +1370,7 @@ def register_builtins(L):
                               sgi(t), to_int(a.sel(t))))
         r = ArrData((n,), lambda i: f(i), "i")
         r.sort_of = (a, sg, sgi)
+        a._sorted = r                        # lets np.argsort of the same array state sort(a)[t] == a[argsort(a)[t]]
         return st.alloc(r)
 
     @fn("np.searchsorted")
@@ -1475,6 +1476,7 @@ def count_true(E, a, st):
     def tr(*i):
         e = a.sel(*i)
         return z3bool(e) if _isbool(e) else truth(e)
+    E.counted = getattr(E, "counted", []) + [(a, c)]            # which array this count symbol stands for (used by postconditions)
     st.assume(c >= 0, c <= total)
     st.assume((c == 0) == z3.Not(z3.Exists(idx, z3.And(rng, tr(*idx)))))
     st.assume((c == total) == z3.ForAll(idx, z3.Implies(rng, tr(*idx))))
